@@ -487,6 +487,152 @@ def rule_facets(ctx):
         yield ob("C14.FACETS", f, "%s:%s" % (func, name), hit is not None, ("raises %s when %s %s %s" % (hit.exc, lhs, op, rhs if rhs is not None else "")) if hit is not None else "no raise guarded by the documented check `%s %s %s`" % (lhs, op, rhs if rhs is not None else ""), node=hit.node if hit is not None else None)
 
 
+# ------------------------------------------------------------------ SOLEGUARD
+def _guard_tree(c, p):
+    """('lit', c, p) | ('and', [...]) | ('or', [...]): the Boolean structure of one branch condition with polarity"""
+    if c.op == "un" and c.a[0] == "not":
+        return _guard_tree(c.a[1], not p)
+    kind = None
+    kids = None
+    if c.op == "bool":
+        kind, kids = c.a[0], c.a[1:]
+    elif c.op == "call" and call_name(c) in ("np.logical_or", "np.logical_and") and c.a[1]:
+        kind, kids = ("or" if call_name(c) == "np.logical_or" else "and"), c.a[1]
+    elif c.op == "bin" and c.a[0] in ("|", "&") and all(z.op in ("cmp", "bin", "call", "un") for z in c.a[1:]):
+        kind, kids = ("or" if c.a[0] == "|" else "and"), c.a[1:]
+    elif c.op == "call" and len(c.a[1]) == 1 and ((call_name(c) == "np.any" and p) or (call_name(c) == "np.all" and not p)):
+        return _guard_tree(c.a[1][0], p)  # somewhere (a | b): a somewhere or b somewhere; somewhere (a & b): both, at one place
+    if kind is None:
+        return ("lit", c, p)
+    k = kind if p else ("or" if kind == "and" else "and")
+    return (k, [_guard_tree(x, p) for x in kids])
+
+
+def _tree_leaves(t):
+    if t[0] == "lit":
+        return [t]
+    out = []
+    for x in t[1]:
+        out += _tree_leaves(x)
+    return out
+
+
+def _tree_contexts(t, ctx=()):
+    """(literal, sub-trees that must hold as well for the guard to fire through this literal)"""
+    if t[0] == "lit":
+        yield t, list(ctx)
+        return
+    for i, x in enumerate(t[1]):
+        if t[0] == "and":
+            yield from _tree_contexts(x, ctx + tuple(y for j, y in enumerate(t[1]) if j != i))
+        else:
+            yield from _tree_contexts(x, ctx)
+
+
+def _generic_coguard(lit, subject_params):
+    """a co-condition that only says the checked value is there to be checked: `x is not None`, `x.size > 0`,
+    `len(x) > 1` - about the parameters the documented check itself reads"""
+    _, c, p = lit
+    ps = tm.params_of(c)
+    if not ps or not ps <= subject_params:
+        return False
+    if c.op == "cmp" and c.a[0] in ("is", "isnot") and (tm.is_const(c.a[1], None) or tm.is_const(c.a[2], None)):
+        return True
+
+    def is_count(z):
+        return common.dim_of(z) is not None or (z.op == "attr" and z.a[1] == "size") or (z.op == "call" and call_name(z) in ("builtins.len", "np.size"))
+
+    if c.op == "cmp" and c.a[0] in ("<", "<=", "==", "!="):
+        a, b = c.a[1], c.a[2]
+        for x, y in ((a, b), (b, a)):
+            if x.op == "const" and x.a[0] in (0, 1) and not isinstance(x.a[0], bool) and is_count(y):
+                return True
+    if is_count(c):
+        return True  # `if x.size and ...`
+    return False
+
+
+def _lit_text(lit):
+    """canonical text of a literal: the polarity is folded into the comparison (`not a == b` is `a != b`)"""
+    _, c, p = lit
+    if c.op == "cmp" and not p and c.a[0] in NEG:
+        c, p = tm.cmp(NEG[c.a[0]], c.a[1], c.a[2]), True
+    return ("" if p else "not ") + tm.show(c, 5)
+
+
+# co-conditions of a documented check that are part of the published behaviour (reviewed one by one; everything of the
+# kind `_generic_coguard` accepts needs no entry)
+SOLEGUARD_REVIEWED = {
+    ("alignment.percentage_correct_segments", "ref-all-identical"): "only without an explicit duration: with one, the last reference boundary is the duration",
+    ("key.validate_key", "form"): "'X' (no key) is a complete label by itself",
+    ("key.validate_key", "x-with-mode"): "the test is about labels starting with X",
+    ("key.validate_key", "unknown-key"): "'X' is handled before the tonic look-up",
+    ("key.validate_key", "unknown-mode"): "'X' is handled before the mode look-up",
+    ("pattern.three_layer_FPR.compute_layer", "layer"): "layer is 1 or 2: the two inequalities are one check",
+    ("util.adjust_intervals", "empty-without-bounds"): "empty input can be padded only when a bound is given",
+}
+
+
+def rule_soleguard(ctx):
+    """A documented validation check is not made conditional on something else: the guard of its `raise` may be a
+    disjunction of several checks, but a *conjunct* next to the documented comparison (`if strict and np.any(x < 0)`,
+    `layer not in (1, 2, 3)`) means malformed input is rejected only when that other condition holds too.  Conjuncts
+    that merely say the value is there to be checked (`x is not None`, `x.size > 0`) are accepted; the seven others of
+    the published validators are reviewed by name, with the literal text recorded on the reference tree."""
+    R = "C14.SOLEGUARD"
+    cache = {}
+    n = 0
+    for func, name, op, lhs, rhs in FACETS:
+        if not ctx.program.has_func(func) or ctx.program.resigned(func):
+            continue
+        f = ctx.program.func(func, R)
+        if func not in cache:
+            s = ctx.S.get(func)
+            trees = []
+            for r in s.by_kind("raise"):
+                if r.exc not in ("ValueError", "InvalidChordException"):
+                    continue
+                conds = [(c, p) for c, p, o in symeval.pc_conds_full(r.pc) if o in (None, "return", "mixed")]
+                if conds:
+                    trees.append((r, ("and", [_guard_tree(c, p) for c, p in conds])))
+            cache[func] = trees
+        alts = [(op, lhs, rhs)] + [(o2, l2, r2) for (f2, n2, o2, l2, r2) in FACET_ALTERNATIVES if (f2, n2) == (func, name)]
+        found = None
+        for r, root in cache[func]:
+            for lit, co in _tree_contexts(root):
+                if any(_match(a, o, l, rr) for a in _cmp_atoms(lit[1], lit[2]) for (o, l, rr) in alts):
+                    found = (r, lit, co)
+                    break
+            if found:
+                break
+        if found is None:
+            continue  # whether the check exists at all is C14.FACETS
+        r, lit, co = found
+        n += 1
+        subject = tm.params_of(lit[1])
+        extra = [l for sub in co for l in _tree_leaves(sub) if not _generic_coguard(l, subject)]
+        if not extra:
+            yield ob(R, f, "%s:%s" % (func, name), True, "the documented check fires on its own (co-conditions: %s)" % ("; ".join(_lit_text(l) for sub in co for l in _tree_leaves(sub)) or "none"), node=r.node)
+            continue
+        rev = SOLEGUARD_REVIEWED.get((func, name))
+        texts = sorted({_lit_text(l) for l in extra})
+        ref = SOLEGUARD_TEXTS.get((func, name))
+        good = rev is not None and ref is not None and set(texts) <= set(ref)
+        yield ob(R, f, "%s:%s" % (func, name), good, ("reviewed co-condition (%s): %s" % (rev, "; ".join(texts))) if good else "the documented check `%s %s %s` is only made when also %s: malformed input is accepted whenever that does not hold" % (lhs, op, rhs if rhs is not None else "", "; ".join(t_ for t_ in texts if ref is None or t_ not in ref)), node=r.node)
+    need(n >= 40, R, "only %d documented checks located" % n)
+
+
+SOLEGUARD_TEXTS = {
+    ("alignment.percentage_correct_segments", "ref-all-identical"): ["(None is duration)"],
+    ("key.validate_key", "form"): ["('x' != .lower(key))"],
+    ("key.validate_key", "x-with-mode"): ["('x' != .lower(key))"],
+    ("key.validate_key", "unknown-key"): ["('x' != .lower(key))"],
+    ("key.validate_key", "unknown-mode"): ["('x' != .lower(key))"],
+    ("pattern.three_layer_FPR.compute_layer", "layer"): ["(2 != layer)", "(1 != layer)"],
+    ("util.adjust_intervals", "empty-without-bounds"): ["(None is t_max)", "(None is t_min)"],
+}
+
+
 UNDEF_REVIEWED = {
     ("beat.goto", "track"): "assigned on every path on which goto_criteria is set, read only under `if goto_criteria`",
     ("pattern.three_layer_FPR.compute_layer", "func"): "layer is validated to be 1 or 2 before the loop",
@@ -1037,6 +1183,7 @@ RULES = [
     ("C14.VALIDATEFIRST", 70, rule_validatefirst),
     ("C14.RAISETYPES", 80, rule_raisetypes),
     ("C14.FACETS", len(FACETS), rule_facets),
+    ("C14.SOLEGUARD", 75, rule_soleguard),
     ("C14.DEFASSIGN", 190, rule_defassign),
     ("C14.TOTALLOOKUP", 15, rule_totallookup),
     ("C14.SQUEEZE", 1, rule_squeeze),
